@@ -3,7 +3,7 @@
 From Coq Require Import ZArith List Bool.
 From Model Require Import PyBase Graph Stereo StereoRegistry StereoSmiles StereoFix StereoWedge StereoParse StereoChiral.
 From Gen Require Import StereoTables StereoConsts StereoBody StereoRegBody.
-From Proofs Require Import StereoProofs StereoRegistryProofs StereoRegistryDisjoint StereoSmilesProofs StereoFixProofs StereoWedgeProofs StereoParseProofs StereoChiralProofs StereoConstsProofs StereoBodyTie StereoRenumber StereoRegBodyTie StereoBodyTie2 StereoFixFuel.
+From Proofs Require Import StereoProofs StereoRegistryProofs StereoRegistryDisjoint StereoSmilesProofs StereoFixProofs StereoWedgeProofs StereoParseProofs StereoChiralProofs StereoConstsProofs StereoBodyTie StereoRenumber StereoRegBodyTie StereoBodyTie2 StereoFixFuel StereoRingSize.
 Import ListNotations.
 Open Scope Z_scope.
 
@@ -813,3 +813,15 @@ Theorem C12_fix_stereo_labels_fuel : forall (chiral : list label -> centre -> bo
   fix_stereo_labels chiral r g = fix_loop chiral (S (List.length (collect r g)) + extra) [] (collect r g).
 Proof. exact fix_stereo_labels_fuel. Qed.
 Print Assumptions C12_fix_stereo_labels_fuel.
+
+(* ROUND 5: the small-ring test of __chiral_centers for endocyclic double bonds / allenes, translated from the source: it is the
+   expression Model.StereoChiral.step_ring_cum applies, it holds exactly when a ring through the end atom has FEWER THAN 8 atoms
+   (so a double bond in an 8-membered ring keeps its E/Z label), with the boundary instances *)
+Theorem C12_source_small_ring_test :
+  (forall rs : list (list Z), g_ring_too_small rs = existsb (fun x => Z.of_nat (List.length x) <? 8) rs) /\
+  (forall rs : list (list Z), g_ring_too_small rs = true <-> exists ring, In ring rs /\ (List.length ring < 8)%nat) /\
+  g_ring_too_small [[1; 2; 3; 4; 5; 6; 7; 8]] = false /\ g_ring_too_small [[1; 2; 3; 4; 5; 6; 7]] = true.
+Proof.
+  exact (conj ring_too_small_model (conj ring_too_small_spec (conj (proj1 ring_too_small_boundary) (proj1 (proj2 ring_too_small_boundary))))).
+Qed.
+Print Assumptions C12_source_small_ring_test.
